@@ -113,6 +113,7 @@ class Gen(object):
         self.rng = rng
         self.mode = mode
         self.c01 = mode == 'c01'
+        self.c03 = mode == 'c03'     # c02 minus mid-block return and minus try bodies that cannot raise at both ends
         self.lines = []
         self.stmts = 0
         self.max_stmts = max_stmts
@@ -254,7 +255,7 @@ class Gen(object):
         if depth < self.max_depth and self.budget():
             kinds += [('if', 6), ('for', 4), ('while', 2), ('try', 3), ('with', 2), ('def', 3), ('class', 1), ('lambda', 1), ('allpaths', 2)]
         kinds += [('import', 2)]
-        if scope.kind == 'function':
+        if scope.kind == 'function' and not self.c03:
             kinds += [('return', 1)]
         if self.c01:
             if in_loop:
@@ -463,7 +464,7 @@ class Gen(object):
         self.emit(ind, 'try:')
         # supp's handler region joins 'before the try' and 'end of the try body': exact when both raise points
         # exist; other placements are a known finding (witnesses), so most generated trys have both
-        where = rng.choice(['first', 'last', 'both', 'both', 'both', 'both', 'both', 'both'])
+        where = 'both' if self.c03 else rng.choice(['first', 'last', 'both', 'both', 'both', 'both', 'both', 'both'])
         pre = set(scope.definite)
 
         def body():
@@ -509,7 +510,7 @@ class Gen(object):
                 r = rng.random()
                 if self.lines[-1].strip().split(' ')[0] in ('return', 'raise', 'break', 'continue'):
                     pass
-                elif scope.kind == 'function' and r < 0.15:
+                elif scope.kind == 'function' and r < 0.15 and not self.c03:
                     self.emit(ind + 1, 'return %s' % self.expr(scope))      # the handler leaves the function
                     self.features.add('handler_returns')
                 elif self.c01 and r < 0.3:
